@@ -646,8 +646,10 @@ func (ctx HelperContext) SimplifyUnusedExpr(expr Expr, unsupportedFeatures compa
 							// Skip this property if the key doesn't need to be computed
 							continue
 						} else {
-							// Replace values without side effects with "0" because it's short
+							// Replace values without side effects with "0" because it's short.
+							// The property must become a plain field: "{ set [k]: 0 }" is a syntax error.
 							property.ValueOrNil.Data = &ENumber{}
+							property.Kind = PropertyField
 						}
 					}
 					properties = append(properties, property)
